@@ -39,6 +39,23 @@ Proof. reflexivity. Qed.
 Lemma propose_order : propose_registers_before_enqueue = true.
 Proof. reflexivity. Qed.
 
+(* node.close() closes all five tables, in the order of [close_ops] (CloseR ; CloseP .. ; CloseC ;
+   CloseS ; CloseL); node.gc() covers the three tables whose gc is not part of applied() *)
+Lemma node_close_order : node_close_tables =
+  ["pendingReadIndexes"; "pendingProposals"; "pendingConfigChange"; "pendingSnapshot"; "pendingRaftLogQuery"]%string.
+Proof. reflexivity. Qed.
+Lemma node_gc_order : node_gc_tables = ["pendingProposals"; "pendingConfigChange"; "pendingSnapshot"]%string.
+Proof. reflexivity. Qed.
+
+(* a read index ctx is drawn from the process wide random source (fresh_ctx: the model's AddReads takes
+   the ctx as an argument and panics on a repeated one), and node.processReadyToRead hands applied()
+   the applied index of the state machine, ud.LastApplied, nothing else
+   (read_completed_only_when_applied speaks about that argument) *)
+Lemma read_ctx_random : read_ctx_low_is_random = true.
+Proof. reflexivity. Qed.
+Lemma ready_to_read_applied : ready_to_read_uses_last_applied = true.
+Proof. reflexivity. Qed.
+
 (* every table method the model treats as ONE step is one critical section
    (Lock; defer Unlock at the top) in the source *)
 Definition modelled_atomic : list string :=
